@@ -272,7 +272,7 @@ def impl(stream, line):
 def _impl(stream, line):
     w = line.split()
     if stream == "scan":
-        ms = list(G.iter_guardrail_configs(io.BytesIO(C.unhx(w[1])), C.unhx(w[2])))
+        ms = list(G.iter_guardrail_configs(io.BytesIO(C.unhx(w[1])), **C.drop_defaults(line, {"xorkey": b"\x8a"}, xorkey=C.unhx(w[2]))))
         return "ok " + show_metas(ms)
     if stream == "wb":
         with _BufSize(int(w[2])):
